@@ -60,6 +60,8 @@ func runC09(c *Ctx) {
 		r.Unresolved("iterate/stop-and-report", "ads.authenticatedMap.Stream", "method not found")
 	}
 
+	checkPresencePredicate(r, p, pkg, info, methods)
+
 	treeCall := func(name string) func(*ast.CallExpr) bool {
 		return func(c *ast.CallExpr) bool {
 			se, ok := ast.Unparen(c.Fun).(*ast.SelectorExpr)
@@ -523,5 +525,67 @@ func checkAdsConstructor(r *Reporter, p *Prog) {
 		r.Pass("layout/prefixes-distinct", key+" fields", p.posStr(fd.Pos()), fmt.Sprintf("rawKeysStore/size/root use %s/%s/%s", use["rawKeysStore"], use["size"], use["root"]))
 	} else {
 		r.Fail("layout/prefixes-distinct", key+" fields", p.posStr(fd.Pos()), fmt.Sprintf("rawKeysStore/size/root must use three different prefixes, found %v", use))
+	}
+}
+
+// checkPresencePredicate: "the key is present" has ONE meaning in authenticatedMap: the trie
+// returns a non-nil value (has() decides size accounting with it; sets store empty values).
+// Every other decision on a tree.Get result must use the same predicate: comparing its length
+// with zero instead treats keys with an empty value as absent in one method and present in the
+// others (Size/Has/Delete/Stream/Root disagree with Get).
+func checkPresencePredicate(r *Reporter, p *Prog, pkg string, info *types.Info, methods []*ast.FuncDecl) {
+	nGets, nNil := 0, 0
+	for _, fd := range methods {
+		if fd.Body == nil {
+			continue
+		}
+		fkey := funcKey(pkg, fd)
+		ast.Inspect(fd.Body, func(nd ast.Node) bool {
+			as, ok := nd.(*ast.AssignStmt)
+			if !ok || len(as.Rhs) != 1 || len(as.Lhs) != 2 {
+				return true
+			}
+			cl, ok := ast.Unparen(as.Rhs[0]).(*ast.CallExpr)
+			if !ok || !strings.HasSuffix(exprKey(cl.Fun), ".tree.Get") {
+				return true
+			}
+			v := objOfIdent(info, as.Lhs[0])
+			if v == nil {
+				return true
+			}
+			nGets++
+			key := "presence test on the result of tree.Get in " + fkey
+			nilTests, lenTests := 0, []string{}
+			ast.Inspect(fd.Body, func(m ast.Node) bool {
+				be, ok := m.(*ast.BinaryExpr)
+				if !ok {
+					return true
+				}
+				for _, side := range [][2]ast.Expr{{be.X, be.Y}, {be.Y, be.X}} {
+					if objOfIdent(info, side[0]) == v && isNil(info, side[1]) && (be.Op == token.EQL || be.Op == token.NEQ) {
+						nilTests++
+					}
+					if c2, ok := ast.Unparen(side[0]).(*ast.CallExpr); ok && exprKey(c2.Fun) == "len" && len(c2.Args) == 1 && objOfIdent(info, c2.Args[0]) == v {
+						if cv, isConst := constInt(info, side[1]); isConst && cv <= 1 {
+							lenTests = append(lenTests, p.posStr(be.Pos())+" "+exprKey(be))
+						}
+					}
+				}
+				return true
+			})
+			switch {
+			case len(lenTests) > 0:
+				r.Fail("presence/one-predicate", key, p.posStr(cl.Pos()), "presence is decided by the length of the stored value ("+lenTests[0]+") instead of value != nil as in has(): a key holding an empty value is reported absent here but counted, streamed and deletable everywhere else", lenTests...)
+			case nilTests == 0:
+				r.Pass("presence/one-predicate", key, p.posStr(cl.Pos()), "no presence decision here (the key comes from the raw-key store)")
+			default:
+				nNil++
+				r.Pass("presence/one-predicate", key, p.posStr(cl.Pos()), "absence decided by == nil / != nil, the predicate of has()")
+			}
+			return true
+		})
+	}
+	if nGets < 2 || nNil < 2 {
+		r.Fail("presence/one-predicate", pkg+".authenticatedMap", "-", fmt.Sprintf("expected tree.Get with a nil test in has() and Get(), found %d sites, %d nil-tested", nGets, nNil))
 	}
 }
